@@ -104,14 +104,7 @@ def rule_recycle_keeps(ctx):
     ar = ctx.prog.func("step.Step.after_recycle")
     direct = {callee_name(c) for c in calls_in(ar.node)}
     ctx.check(not ({"delete_hash", "set_hash", "set_state", "reset_for_rerun"} & direct), ar.fq, "does not touch hash or state directly", f"after_recycle calls {sorted({'delete_hash', 'set_hash', 'set_state', 'reset_for_rerun'} & direct)}: a recycled step loses what lets it be skipped", "keeps hash and state")
-    SS = ctx.prog.enum("StepState")
-    for st in SS:
-        for has_hash in (True, False):
-            fp = finite.feasible_paths(ctx.prog, ar, {}, {"self.get_state()": st, "self.get_hash()": (object() if has_hash else None)})
-            for tr, s in fp:
-                rep = any(e[0] == "call" and e[1].endswith("mark_step_pending") for e in tr)
-                exp = st == SS.FAILED or (st == SS.SUCCEEDED and not has_hash)
-                ctx.check(rep == exp, ar.fq, f"state={st.name} hash={'yes' if has_hash else 'no'}", f"re-pended={rep}, expected {exp}: a recycled step is re-run needlessly (or a failed / incomplete one is trusted)", "re-pended" if exp else "kept")
+    shared.check_after_recycle_repends(ctx, "a recycled step is re-run needlessly (or a failed / incomplete one is trusted)")
     tr_ = ctx.prog.func("trellis.Trellis.try_recycle")
     names = [callee_name(c) for c in calls_in(tr_.node)]
     ctx.check("initialize_row" not in names and "create" not in names, tr_.fq, "full recycle does not re-initialise the row", "full recycle re-initialises the satellite row (state and hash are lost)", "reattach + after_recycle only")
